@@ -889,6 +889,56 @@ class C19(Prop):
     def nontrivial(self, d, kind, q, a):
         return json.dumps(q, sort_keys=True) if kind == "summary" and a.get("nb", 0) >= 1 else None
 
+    def after_run(self, cases, res, rep, stats, tier, seed):
+        """HTTP leg (seeded change C19-r7: the summary handler captured the data status BY VALUE at start-up while /v2/route kept the live
+        one). The two handlers only differ in what the in-process harness does not run - the lambdas of the server's main(). The real
+        ASan binary is started on an EMPTY cache directory (every endpoint: data_error), the files of a generated dataset are written,
+        /updateCache?names=all is called, and then (route, summary) pairs with identical parameters must satisfy the property."""
+        from . import httpkit as H
+        from . import http_checks as HC
+        server = core.harness_phase(rep, "server", "asan")
+        cachegen = core.harness_phase(rep, "cachegen", "plain")
+        if not server or not cachegen: return
+        n0 = len(rep.direct)
+        picked = [c for c in cases if not HC.c16_wellformed(c["blocks"][0][1])][: (3 if tier != "thorough" else 30)]
+        for c in picked:
+            did, d, reqs = c["blocks"][0]
+            d = dict(d); d["acc"] = sorted(d["acc"]); d["egr"] = sorted(d["egr"])
+            cdir = os.path.join(H.workdir("c19http"), did)
+            head = "#!c19http start on an empty directory, write the files, /updateCache?names=all\n" + block_text(did, d, reqs)
+            stub = srv = None
+            try:
+                if os.path.isdir(cdir): shutil.rmtree(cdir)
+                os.makedirs(cdir)
+                stub = H.start_stub(d["acc"], d["egr"])
+                srv = H.start_server(cdir, threads=1, osrm_port=stub.port, exe=server, tag="c19h")
+                if srv is None or not srv.alive() or getattr(srv, "ready_s", None) is None:
+                    rep.direct.append(("server-startup", "server did not start on an empty cache directory", head)); continue
+                H.make_cache(d, cdir, did=did, cachegen=cachegen)
+                st, hd, body, raw = srv.get("/updateCache?names=all", timeout=60.0)
+                if st != 200:
+                    rep.direct.append(("update-not-answered", "/updateCache?names=all answered %s" % st, head)); continue
+                prev = None
+                for i, (kind, q) in enumerate(reqs):
+                    st, hd, body, raw = srv.get(H.route_query(HC.c16_sanitise_query(q), kind), timeout=30.0)
+                    rep.evaluations += 1; stats["http pairs after a refresh from empty"] += (kind == "summary")
+                    txt, j, err = HC.http_canon(kind, body or b"")
+                    if kind == "route":
+                        prev = txt; continue
+                    if txt is None or prev is None: continue
+                    a = canon.parse_answer(txt)
+                    for sig, desc in (self.direct(d, kind, q, a, dict(index=1, impl=[prev, txt], reqs=reqs, stats=stats)) if a else [("summary-status", "summary body not understood: %s" % (body or b"")[:160])]):
+                        rep.direct.append((sig + "-http", "after starting on an empty directory and /updateCache?names=all: " + desc + " (summary body: %s)" % (body or b"")[:200].replace(b"\n", b" "), head))
+                    if a and a.get("nb", 0) >= 1: rep.nontrivial.add(hash(("c19http", did, i)))
+                    prev = None
+                if not srv.alive() or srv.sanitizer_output():
+                    rep.direct.append(("server-crash", "server died / sanitizer report: %s" % srv.sanitizer_output()[:300], head))
+            finally:
+                if srv: srv.stop()
+                if stub: stub.stop()
+                shutil.rmtree(cdir, ignore_errors=True)
+        rep.obligation("http:summary-aggregates-routes-after-refresh", len(rep.direct) == n0, "%d difference(s)" % (len(rep.direct) - n0))
+
 
 PROPS = {c.pid: c for c in (C01, C02, C03, C04, C05, C06, C07, C08, C09, C10, C11, C12, C13, C19)}
 
